@@ -65,8 +65,8 @@ Theorem raw_readers_exact : forall k l o r, short l -> raw_c k l = Ok o r ->
         match k with
         | RawAny => b = pre
         | RawS => exists ds, all_digits ds /\ pre = ds ++ ch_colon :: b
-        | RawL => exists c0 cl, ch_l <= c0 /\ pre = c0 :: b ++ [cl]
-        | RawM => exists c0 cl, ch_d <= c0 /\ pre = c0 :: b ++ [cl]
+        | RawL => exists cl, pre = ch_l :: b ++ [cl]
+        | RawM => exists cl, pre = ch_d :: b ++ [cl]
         end
     end.
 Proof. exact ProofsSMFaith.raw_c_exact. Qed.
@@ -76,15 +76,30 @@ Example raw_readers_exact_nonvacuous :
   raw_c RawS [50; 58; 97; 98; 101] = Ok (Some [97; 98]) [101] /\ raw_c RawL [108; 105; 49; 101; 101] = Ok (Some [105; 49; 101]) [].
 Proof. split; vm_compute; reflexivity. Qed.
 
-(* ... but the map view is handed out for values that are NOT dictionaries (raw_bencode::is_raw_map
-   tests m_data[0] >= 'd', which 'i' and 'l' satisfy): a "*M" key stores raw_map("5") for "i5e" *)
-Theorem raw_map_type_refuted :
-  exists l b r, raw_c RawM l = Ok (Some b) r /\ hd 0 l <> ch_d /\
-                sm_read [(0, [107; 42; 77])] (ch_d :: [49; 58; 107] ++ l ++ [ch_e]) = Ok [Some (SRaw RawM b)] [].
-Proof. exact ProofsSMFaith.raw_map_type_refuted. Qed.
-Print Assumptions raw_map_type_refuted.
+(* Raw views have the right type (after fix 100e504: raw_bencode::is_value / is_raw_list / is_raw_map
+   compare with ==): whenever a view is stored, the input starts with a value of exactly that kind and
+   the view is its content — a string's bytes, the bytes between 'l' / 'd' and the container's own
+   closing 'e' — and the reader stops right after that value. *)
+Theorem raw_type_exact : forall k l b r, short l -> raw_c k l = Ok (Some b) r ->
+  skip_c l = Ok tt r /\
+  match k with
+  | RawAny => l = b ++ r
+  | RawS => exists ds, all_digits ds /\ l = ds ++ ch_colon :: b ++ r
+  | RawL => l = ch_l :: b ++ ch_e :: r
+  | RawM => l = ch_d :: b ++ ch_e :: r
+  end.
+Proof. exact ProofsSMFaith.raw_type_exact. Qed.
+Print Assumptions raw_type_exact.
 
-(* Unknown keys (longer than the room left in current_key, or not found from the first_key cursor):
+(* regression of the former witness: a "*M" key over an integer or a list stores nothing *)
+Example raw_type_regression :
+  raw_c RawM [105; 53; 101] = Ok None [] /\ raw_c RawM [108; 105; 53; 101; 101] = Ok None [] /\
+  raw_c RawL [100; 101] = Ok None [] /\ raw_c RawM [100; 101] = Ok (Some []) [] /\
+  sm_read [(0, [107; 42; 77])] [100; 49; 58; 107; 105; 53; 101; 101] = Ok [None] [].
+Proof. repeat split; vm_compute; reflexivity. Qed.
+
+(* Unknown keys (longer than the room left in current_key, holding NUL / ':' / '[' / '*', or not found
+   from the first_key cursor):
    one loop iteration continues at exactly the position the skip reader delimits, with the same
    cursor, stack and entries (only the scratch buffer current_key may differ). *)
 Theorem unknown_keys_skipped_exactly : forall tbl f st l rk rest u rest',
@@ -108,30 +123,49 @@ Theorem static_map_faithful : forall tbl l e r, small l -> sm_read tbl l = Ok e 
     | SObj v _ => denotes vb v
     | SRaw RawAny b => b = vb
     | SRaw RawS b => exists ds, all_digits ds /\ vb = ds ++ ch_colon :: b
-    | SRaw RawL b => exists c0 cl, ch_l <= c0 /\ vb = c0 :: b ++ [cl]
-    | SRaw RawM b => exists c0 cl, ch_d <= c0 /\ vb = c0 :: b ++ [cl]
+    | SRaw RawL b => vb = ch_l :: b ++ [ch_e]
+    | SRaw RawM b => vb = ch_d :: b ++ [ch_e]
     end.
 Proof. exact ProofsSMFaith.static_map_faithful. Qed.
 Print Assumptions static_map_faithful.
 
-(* The stronger reading "the stored value is the value of THE TABLE'S KEY in the dictionary the input
-   denotes" is FALSE of the code: (1) C-string semantics of current_key: the input key "v\0x" fills the
-   entry of "v" (real extension-handshake table) *)
-Theorem static_map_key_exact_refuted :
-  exists l e, table_ok ext_handshake = true /\
-    sm_read ext_handshake l = Ok e [] /\ nth 6 e None = Some (SObj (VStr [97]) false) /\
-    nth_error ext_handshake 6 = Some (6, [118]) /\
-    l = [100; 51; 58; 118; 0; 120; 49; 58; 97; 101].
-Proof. exact ProofsSMFaith.static_map_key_exact_refuted. Qed.
-Print Assumptions static_map_key_exact_refuted.
+(* Key exactness (after fix a215a35): an entry is filled only through an input key that equals the
+   table key's path component byte for byte. `inv` is the loop invariant of the reader: it holds
+   initially (init_inv) and is re-established at every recursive call in the proof of static_map_total,
+   hence in every state the loop reaches; it includes pref_ok: the part of current_key below next_key
+   is the "::"-terminated prefix of the table row matched when the enclosing dictionary was entered.
+   In such a state, if the lookup of the input key rk (not skipped: it fits and holds no NUL / ':' /
+   '[' / '*') succeeds at row (idx, k) with terminator position base, then base = next_key + |rk|
+   (nothing truncated), k[next_key + j] = rk[j] for every j < |rk|, k[j] = current_key[j] below
+   next_key, and k[base] is a terminator (NUL, '*', "::" or "[]"). *)
+Theorem static_map_key_exact : forall tbl st rk b1 b2 len pos base,
+  table_ok tbl = true -> inv tbl st ->
+  N.of_nat (length rk) < 16 - top_key st -> existsb is_not_key_char rk = false ->
+  buf_write (s_cur st) (N.to_nat (top_key st)) rk = Some b1 ->
+  set_nth b1 (N.to_nat (top_key st + N.of_nat (length rk))) 0 = Some b2 ->
+  c_strlen b2 = Some len ->
+  find_key (skipn (s_cursor st) tbl) (s_cursor st) (firstn len b2) = FkSome pos base ->
+  exists idx k, nth_error tbl pos = Some (idx, k) /\ is_term k base /\
+    base = top_key st + N.of_nat (length rk) /\
+    (forall j, (j < length rk)%nat -> nth (N.to_nat (top_key st) + j) k 0 = nth j rk 0) /\
+    (forall j, (j < N.to_nat (top_key st))%nat -> nth j k 0 = nth j (s_cur st) 0).
+Proof. exact ProofsSMTotal.static_map_key_exact. Qed.
+Print Assumptions static_map_key_exact.
 
-(* (2) an input key that spells the table's path syntax literally ("m::ut_pex" as ONE key) reaches the
-   nested entry *)
-Theorem static_map_key_alias_refuted :
-  exists l e, sm_read ext_handshake l = Ok e [] /\ nth 2 e None = Some (SObj (VInt 1) false) /\
-    l = [100; 57; 58; 109; 58; 58; 117; 116; 95; 112; 101; 120; 105; 49; 101; 101].
-Proof. exact ProofsSMFaith.static_map_key_alias_refuted. Qed.
-Print Assumptions static_map_key_alias_refuted.
+Theorem static_map_inv_initial : forall tbl e, length e = length tbl -> inv tbl (init_st e).
+Proof. exact ProofsSMTotal.init_inv. Qed.
+Print Assumptions static_map_inv_initial.
+
+(* regression of the former witnesses: "d3:v\0x1:ae", "d9:m::ut_pexi1ee" (extension handshake) and
+   "d3:e[]li1eee" (DHT) are accepted and fill NOTHING; the genuine nested form still fills m -> ut_pex *)
+Example static_map_key_regression :
+  sm_read ext_handshake [100; 51; 58; 118; 0; 120; 49; 58; 97; 101] = Ok (empty_entries ext_handshake) [] /\
+  sm_read ext_handshake [100; 57; 58; 109; 58; 58; 117; 116; 95; 112; 101; 120; 105; 49; 101; 101]
+    = Ok (empty_entries ext_handshake) [] /\
+  sm_read dht [100; 51; 58; 101; 91; 93; 108; 105; 49; 101; 101; 101] = Ok (empty_entries dht) [] /\
+  exists e, sm_read ext_handshake [100; 49; 58; 109; 100; 54; 58; 117; 116; 95; 112; 101; 120; 105; 49; 101; 101; 101] = Ok e [] /\
+            nth 2 e None = Some (SObj (VInt 1) false).
+Proof. repeat split; try (vm_compute; reflexivity). eexists. split; vm_compute; reflexivity. Qed.
 
 (* Round trip. PARTIAL (see the header of ProofsSMRT.v for what is missing): explicit instances over
    each real table and a synthetic nested table (computed), and the empty map for EVERY table. *)
